@@ -42,6 +42,10 @@ func (node *tagCycleNode) Execute(ctx *ExecutionContext, writer TemplateWriter) 
 		t.value = val
 
 		if !t.node.silent {
+			val, err = cycleAutoescape(ctx, item, val)
+			if err != nil {
+				return err
+			}
 			writer.WriteString(val.String())
 		}
 	} else {
@@ -56,11 +60,23 @@ func (node *tagCycleNode) Execute(ctx *ExecutionContext, writer TemplateWriter) 
 			ctx.Private[node.asName] = cycleValue
 		}
 		if !node.silent {
+			val, err = cycleAutoescape(ctx, item, val)
+			if err != nil {
+				return err
+			}
 			writer.WriteString(val.String())
 		}
 	}
 
 	return nil
+}
+
+// cycleAutoescape escapes a cycled value the same way an output node would do.
+func cycleAutoescape(ctx *ExecutionContext, item IEvaluator, val *Value) (*Value, *Error) {
+	if ctx.Autoescape && !item.FilterApplied("safe") && !val.safe && (val.IsString() || val.isStringer()) {
+		return ApplyFilter("escape", val, nil)
+	}
+	return val, nil
 }
 
 // HINT: We're not supporting the old comma-separated list of expressions argument-style
